@@ -12,7 +12,7 @@ set_option linter.unusedVariables false
 
 open Matrix
 
-namespace GT
+namespace GT.Act
 open ND
 
 variable {K : Type} [Field K] [Inhabited K]
@@ -892,4 +892,4 @@ theorem computeAuxPolygonLit_spec (r : K → K) (p : ND K) {o : List ℕ} {t n :
         congr 1
         simp [hi.length, List.getD_eq_getElem?_getD, List.getElem?_append_right]
 
-end GT
+end GT.Act
